@@ -408,3 +408,30 @@ CHECKS["C08"] = dict(
         level_note="Trusts the twin mechanism (both run in one process) and the reference tempo arithmetic.",
     ),
 )
+
+CHECKS["C09"] = dict(
+    harnesses={"pbt": dict(src="c09_loops.cpp", cfg="asan", kind="rc")},
+    quick=[dict(name="pbt", harness="pbt", workers=8, args=["--n", "7000"])],
+    thorough=[dict(name="pbt", harness="pbt", workers=16, args=["--n", "80000"], timeout=10800)],
+    rule="rapidcheck: 1-3 track songs whose every occupied tick carries a (track,serial)-stamped text event (ordinary events on even ticks) plus 0-3 loop markers (meta 06 loopStart/loopEnd in "
+         "random case, or CC111) placed as: valid pair, none, only start, only end, end<=start, duplicated start, duplicated end, start and end on one tick; the loop start may share its tick with "
+         "events of any track, the loop end stands alone; loop enabled/disabled; counts -1,0,1,2,3,4 set before load (or after load + rewind); hooks registered before load, after load, or before "
+         "a reset + load. A reference unroller gives the expected number of deliveries of every event (prefix once, body n times, suffix once; whole song when no valid loop); also checked: "
+         "loop start/end times, end of song reported only after the suffix (never for count -1, observed over 6 passes), nothing sounding at the first event after each jump back, number of jumps, "
+         "loop-end hook count (arrivals at loop end + song end) and loop-start hook count (passes, with an explicit valid loopStart). Non-trivial = valid loop with >=2 passes, or an invalid "
+         "placement with looping enabled; distinct by FNV-64 of the case.",
+    assumptions=[
+        "count 0 is read as 'at least the one linear pass'",
+        "the loop end marker stands alone on its tick (the statement does not order events that share the loop-end tick with the marker)",
+        "events that share the loop START tick belong to the loop body (delivered once per pass)",
+        "the loop-start hook count is asserted only with an explicit valid loopStart and the count set before load (a rewind arms one extra start callback)",
+        "no sustain/sostenuto pedals in these songs",
+    ],
+    min_nontrivial={"quick": 500, "thorough": 5000},
+    manifest=dict(
+        technique="model-based property testing: reference loop unroller over generated stamped songs vs raw-event-hook delivery counts, hook counters and state snapshots at jump points",
+        level_text="For generated songs and every marker placement class the number of deliveries of each stamped event, the loop times, the end-of-song report, the silence at each jump "
+                   "back and both loop hook counters are compared with a reference unroller.",
+        level_note="Trusts the unroller's reading of loop-boundary semantics as stated in the assumptions.",
+    ),
+)
